@@ -103,3 +103,42 @@ pub async fn verif_reader_actor(good: usize, tail: Vec<u8>, piece: usize, max_fr
     sink.stop(None);
     (n, status, sink_alive)
 }
+
+/// The real `run_write_task` against an in-memory duplex: `frames` casts (payload `size` bytes, numbered through `to`) are queued before the task starts, the queue
+/// is closed, and everything is read back with `read_network_message`. Returns the `to` numbers read back in order and whether every payload was intact.
+pub async fn verif_write_backlog(frames: usize, size: usize) -> (Vec<u64>, bool) {
+    let got = std::sync::Arc::new(std::sync::atomic::AtomicUsize::new(0));
+    let (sink, _sh) = Actor::spawn(None, VerifSink { got }, ()).await.unwrap();
+    let (ours, theirs) = tokio::io::duplex(64 * 1024 * 1024);
+    let (_r, w) = tokio::io::split(theirs);
+    let (tx, rx) = tokio::sync::mpsc::unbounded_channel();
+    for i in 0..frames {
+        let msg = crate::protocol::NetworkMessage {
+            message: Some(crate::protocol::meta::network_message::Message::Node(crate::protocol::node::NodeMessage {
+                msg: Some(crate::protocol::node::node_message::Msg::Cast(crate::protocol::node::Cast { to: i as u64, what: vec![(i % 251) as u8; size], variant: "v".to_string(), metadata: None })),
+            })),
+        };
+        tx.send(msg).unwrap();
+    }
+    drop(tx);
+    run_write_task(ActorWriteHalf::External(Box::new(w)), rx, sink.clone()).await;
+    let (r, _w2) = tokio::io::split(ours);
+    let mut half = ActorReadHalf::External(Box::new(r));
+    let mut out = Vec::new();
+    let mut intact = true;
+    for _ in 0..frames {
+        match tokio::time::timeout(std::time::Duration::from_millis(500), read_network_message(&mut half, u64::MAX >> 2)).await {
+            Ok(Ok(m)) => {
+                if let Some(crate::protocol::meta::network_message::Message::Node(n)) = m.message {
+                    if let Some(crate::protocol::node::node_message::Msg::Cast(c)) = n.msg {
+                        intact = intact && c.what.len() == size && c.what.iter().all(|b| *b == (c.to % 251) as u8);
+                        out.push(c.to);
+                    }
+                }
+            }
+            _ => break,
+        }
+    }
+    sink.stop(None);
+    (out, intact)
+}
